@@ -465,7 +465,7 @@ func filesViaCLI(text string, langs []string, inproc map[string]map[string][]byt
 		}
 		args = append(args, cli.Flags[l], out)
 	}
-	r := cli.Run(dir, 120*time.Second, nil, nil, cli.Bin(), args...)
+	r := cli.Run(dir, 120*time.Second, nil, nil, cli.Bin(), cli.Respell(args, text)...)
 	if r.Exit != 0 {
 		return nil, fmt.Sprintf("exit %d: %s", r.Exit, clip(string(r.Stdout)+string(r.Stderr), 200))
 	}
